@@ -41,9 +41,9 @@ def draw_store_mesh(rng, geo, ndim, max_cells, max_subs, same_units, dims_any=Tr
             n[i] = 2 if cells[i] == 0.5 else 1
         pmin = [float(rng.randint(-20, 20)) for _ in range(ndim)]
     else:
-        cells = [geo.cell(rng) for _ in range(ndim)]
-        pmin = [geo.origin(rng) for _ in range(ndim)]
-    pmax = [a + k * c for a, k, c in zip(pmin, n, cells)]
+        spans = [geo.span(rng, k) for k in n]
+        pmin, cells = [a for a, _ in spans], [(b - a) / k for (a, b), k in zip(spans, n)]
+    pmax = [a + k * c for a, k, c in zip(pmin, n, cells)] if intc else [b for _, b in spans]
     p1, p2 = list(pmin), list(pmax)
     for i in range(ndim):
         if rng.random() < 0.25:
